@@ -8,7 +8,7 @@ queue.  Channels are scripted objects with the send()/close() behaviour of a
 multiprocessing.connection.Connection (send raises the scripted exception once the peer is gone,
 OSError('handle is closed') after close()); thorough tier and a small quick sample also use real
 multiprocessing.Pipe() connections whose reading end is closed for breakage."""
-import copy, queue, pickle, threading, itertools, multiprocessing
+import os, copy, queue, pickle, select, threading, itertools, multiprocessing
 import common as C
 
 ID = 'C18'
@@ -22,7 +22,10 @@ RULE = ('cases = histories (<= 25 operations) of subscribe(id, channel) / unsubs
         'publish / break(channel, exception kind) over 1..3 subscribers (own id and channel each: kind wf*), over arbitrary '
         'id/channel pairings with shared channels and re-bound ids (kind shared*), a break inserted at every position of template '
         'histories (kind breakpos*), histories with channels raising non-OSError exceptions (kind escape*, separate malformed '
-        'stream) and histories in which queue.get() itself fails (kind qerr-run, known finding); each is run through '
+        'stream), histories with slow but alive readers (kind slow*, and caps on 30 % of wf*: the channel buffer holds 0..8 '
+        'unread messages; the scripted channel exposes a real descriptor through fileno() and refuses a send with '
+        'BlockingIOError when it is full AND has been switched to non-blocking) and histories in which queue.get() itself '
+        'fails (kind qerr-run, known finding); each is run through '
         'handle_event call by call (*-steps) or through the real run() loop with a scripted queue (*-run). Compared with the '
         'model: per-call outcome, subscriber table in dict order, and per channel object the messages received and the number of '
         'close() calls; for *-steps cases the Python reference used as oracle is additionally compared with the Coq reference '
@@ -34,7 +37,11 @@ TRUSTED = ['scripted channel objects behave like multiprocessing.connection.Conn
            'thorough tier runs a live EventManager with two EventSubscribers as supporting evidence',
            'the per-channel reference expected_view (oracle) is cross-validated on every run against the Coq function `view`, '
            'which Theorem C18_view proves equal to the model for every history']
-ASSUMPTIONS = ['conn.send raises only OSError subclasses or EOFError when the peer is gone (premise no_other of the theorems); '
+ASSUMPTIONS = ['subscriber channels stay in blocking mode: a send to a slow but alive reader waits and then succeeds (the model '
+               'treats it as delivered); a dispatcher that makes channels non-blocking and handles EAGAIN as breakage is caught by '
+               'the slow-reader streams and the live real-Pipe slow-reader runs; a reader that never reads again wedges send() '
+               '(liveness, outside this safety property)',
+               'conn.send raises only OSError subclasses or EOFError when the peer is gone (premise no_other of the theorems); '
                'any other exception type escapes handle_event (Theorem C18_other_escapes)',
                'a published event never has event_name SUBSCRIBE or UNSUBSCRIBE',
                'every queue item can be received: queue.get() raises nothing but queue.Empty (otherwise known finding '
@@ -63,16 +70,42 @@ def make_exc(kind, variant=0):
 
 
 class FakeChan:
-    """send()/close() of a multiprocessing Connection whose peer can go away at a scripted moment"""
-    def __init__(self, idx, close_raises=False):
+    """send()/close()/fileno() of a multiprocessing Connection whose peer can go away at a scripted moment and
+    whose reader can be slow.
+
+    capacity = None: the reader keeps up.  capacity = k: the reader is alive but reads nothing until the history
+    is over (then it reads everything), and the kernel buffer of the channel holds k messages.  On a BLOCKING
+    channel (what the dispatcher is handed) a send into a full buffer simply waits for the reader, i.e. it
+    succeeds - that is how the model treats it.  If somebody switched the descriptor to non-blocking
+    (os.set_blocking, fcntl: fileno() is a real descriptor, its O_NONBLOCK flag is read back at every send) the
+    same send raises BlockingIOError, as the kernel would."""
+    def __init__(self, idx, close_raises=False, capacity=None):
         self.idx, self.rcvd, self.fault, self.closed, self.closes = idx, [], None, False, 0
-        self.close_raises = close_raises
+        self.close_raises, self.capacity = close_raises, capacity
+        self._fds = None
+        self.eagain = 0
+
+    def fileno(self):
+        if self.closed:
+            raise OSError('handle is closed')
+        if self._fds is None:
+            self._fds = os.pipe()      # only created when the code under test asks for the descriptor
+        return self._fds[1]
+
+    def nonblocking(self):
+        try:
+            return self._fds is not None and not os.get_blocking(self._fds[1])
+        except OSError:
+            return False
 
     def send(self, obj):
         if self.closed:
             raise OSError('handle is closed')
         if self.fault is not None:
             raise make_exc(*self.fault)
+        if self.capacity is not None and len(self.rcvd) >= self.capacity and self.nonblocking():
+            self.eagain += 1
+            raise BlockingIOError(11, 'Resource temporarily unavailable')
         self.rcvd.append(copy.deepcopy(obj))     # a real connection pickles at send time
 
     def close(self):
@@ -83,6 +116,19 @@ class FakeChan:
 
     def break_(self, kind, variant):
         self.fault = (kind, variant)
+
+    def release(self):
+        if self._fds is not None:
+            for fd in self._fds:
+                try: os.close(fd)
+                except OSError: pass
+            self._fds = None
+
+
+def make_chans(case):
+    caps = case.get('caps') or {}
+    return [FakeChan(i, close_raises=(i in case.get('close_raises', [])),
+                     capacity=caps.get(i, caps.get(str(i)))) for i in range(case['nchan'])]
 
 
 class ListQueue:
@@ -147,7 +193,11 @@ def observe(drv, disp, chans):
     for k, v in disp.subscribers.items():
         a = int(k.split('-')[1]) if isinstance(k, str) and k.startswith('sub-') else 999
         subs.append([a, getattr(v, 'idx', 998)])
-    return dict(subs=subs, chans=[dict(closes=ch.closes, rcvd=[drv.canon_msg(m) for m in ch.rcvd]) for ch in chans])
+    out = dict(subs=subs, chans=[dict(closes=ch.closes, rcvd=[drv.canon_msg(m) for m in ch.rcvd]) for ch in chans])
+    eg = sum(getattr(ch, 'eagain', 0) for ch in chans)
+    if eg:
+        out['eagain'] = eg      # informational: sends refused because the channel had been made non-blocking
+    return out
 
 
 def quiet_logs():
@@ -163,22 +213,27 @@ def new_dispatcher(event_queue=None):
 
 
 def run_steps(case, chans=None):
-    chans = chans or [FakeChan(i, close_raises=(i in case.get('close_raises', []))) for i in range(case['nchan'])]
+    chans = chans or make_chans(case)
     drv = Driver(case, chans)
     disp = new_dispatcher()
     outs = []
-    for op in case['ops']:
-        if op[0] == 'break':
-            chans[op[1]].break_(op[2], op[3] if len(op) > 3 else 0)
-            outs.append(0)
-            continue
-        it = drv.item(op)
-        try:
-            r = disp.handle_event(it)
-            outs.append(0 if r is None else 6)
-        except Exception as e:     # noqa
-            outs.append(exc_code(e))
-    out = observe(drv, disp, chans)
+    try:
+        for op in case['ops']:
+            if op[0] == 'break':
+                chans[op[1]].break_(op[2], op[3] if len(op) > 3 else 0)
+                outs.append(0)
+                continue
+            it = drv.item(op)
+            try:
+                r = disp.handle_event(it)
+                outs.append(0 if r is None else 6)
+            except Exception as e:     # noqa
+                outs.append(exc_code(e))
+        out = observe(drv, disp, chans)
+    finally:
+        for ch in chans:
+            if hasattr(ch, 'release'):
+                ch.release()
     out['outs'] = outs
     return out
 
@@ -208,7 +263,7 @@ class ScriptedQueue:
 def run_run(case):
     from proxy.core.event.dispatcher import EventDispatcher
     quiet_logs()
-    chans = [FakeChan(i, close_raises=(i in case.get('close_raises', []))) for i in range(case['nchan'])]
+    chans = make_chans(case)
     drv = Driver(case, chans)
     shutdown = threading.Event()
     sq = ScriptedQueue(case, drv, chans, shutdown)
@@ -216,11 +271,15 @@ def run_run(case):
         queue = sq
     disp = EventDispatcher(shutdown=shutdown, event_queue=EQ())
     try:
-        disp.run()
-        raised = 0
-    except Exception as e:   # noqa
-        raised = exc_code(e)
-    out = observe(drv, disp, chans)
+        try:
+            disp.run()
+            raised = 0
+        except Exception as e:   # noqa
+            raised = exc_code(e)
+        out = observe(drv, disp, chans)
+    finally:
+        for ch in chans:
+            ch.release()
     out.update(raised=raised, consumed=sq.consumed)
     return out
 
@@ -395,7 +454,7 @@ def oracle(case, out, isolation=True):
     for c, ch in enumerate(out['chans']):
         exp, closes, _ = expected_view(ops, c, shutdown=runmode)
         if ch['rcvd'] != exp:
-            return 'channel %d received %r, owed %r' % (c, ch['rcvd'], exp)
+            return 'channel %d received %r, owed %r%s' % (c, ch['rcvd'], exp, slow_hint(case, out, c))
         if ch['closes'] != closes:
             return 'channel %d closed %d times, expected %d' % (c, ch['closes'], closes)
     tab = expected_table(ops, case['nchan'], shutdown=runmode)
@@ -417,6 +476,13 @@ def oracle(case, out, isolation=True):
             if [s for s in out['subs'] if s[0] != a] != out2['subs']:
                 return 'erasing subscriber %d changes the rest of the table' % a
     return None
+
+
+def slow_hint(case, out, c):
+    if out.get('eagain') and (case.get('caps') or {}).get(c, (case.get('caps') or {}).get(str(c))) is not None:
+        return (' — its reader is slow but alive (buffer of %s messages); the channel had been switched to non-blocking and a '
+                'send was refused with BlockingIOError: a full channel was treated as a broken one' % (case['caps'].get(c, case['caps'].get(str(c))),))
+    return ''
 
 
 def nontrivial(case, out):
@@ -491,8 +557,10 @@ def generate(rng, tier):
         if rng.random() < 0.6:
             ops = [['sub', a, a] for a in range(nsub)] + ops
             ops = ops[:25]
-        add('wf', ops, nchan, 'run' if i % 4 == 3 else 'steps',
-            **({'close_raises': [rng.randrange(nchan)]} if rng.random() < 0.2 else {}))
+        kw = {'close_raises': [rng.randrange(nchan)]} if rng.random() < 0.2 else {}
+        if rng.random() < 0.3:      # some readers are slow: their kernel buffer holds only a few messages
+            kw['caps'] = {c: rng.randrange(0, 5) for c in range(nchan) if rng.random() < 0.6}
+        add('wf', ops, nchan, 'run' if i % 4 == 3 else 'steps', **kw)
     for i in range(110 if quick else 5000):
         ops, nchan = gen_history(rng, 3, rng.randrange(3, 26), shared=True, p_break=0.08)
         add('shared', ops, nchan, 'run' if i % 4 == 3 else 'steps')
@@ -515,6 +583,17 @@ def generate(rng, tier):
         ops, nchan = gen_history(rng, nsub, rng.randrange(3, 20), allow_other=True, p_break=0.2)
         ops = [['sub', a, a] for a in range(nsub)] + ops
         add('escape', ops, nchan, 'run' if i % 3 == 2 else 'steps')
+    # boundary stream: slow but alive subscribers - the backlog of unread messages crosses the capacity of the channel
+    for i in range(30 if quick else 1500):
+        nsub = 2 + i % 2
+        ops, nchan = gen_history(rng, nsub, rng.randrange(6, 22), p_break=0.05)
+        ops = [['sub', a, a] for a in range(nsub)] + [o for o in ops if o[0] != 'unsub' or rng.random() < 0.4]
+        cap = rng.choice([0, 1, 1, 2, 3, 5, 8])
+        slow = rng.randrange(nsub)
+        caps = {slow: cap}
+        if rng.random() < 0.3:
+            caps[(slow + 1) % nsub] = rng.choice([1, 2, 4])
+        add('slow', ops[:25], nchan, 'run' if i % 4 == 3 else 'steps', caps=caps)
     # the run() loop when queue.get() itself fails (known finding C18-dead-subscriber-unpickle)
     for i in range(8 if quick else 200):
         nsub = 1 + i % 3
@@ -640,7 +719,7 @@ def exhaustive(maxlen):
                 if o[0] == 'pub':
                     o = ['pub', e, 6]; e += 1
                 ops.append(o)
-            case = dict(kind='exhaustive', mode='steps', ops=ops, nchan=2)
+            case = dict(kind='exhaustive', mode='steps', ops=ops, nchan=2, caps={0: 1, 1: 2})
             out = run_steps(case)
             n += 1
             f = oracle(case, out, isolation=False)
@@ -693,6 +772,27 @@ def extra_checks(rng, tier):
         notes.append('real Pipe(): send with reader closed raises %s; send after own close() raises %s' % (k, k2))
     except Exception as e:   # noqa
         notes.append('probe of real Pipe failed: %r' % e)
+    # live: real Pipe() channels whose reader pauses until the kernel buffer is full, then resumes
+    slow_runs = []
+    for k in range(4 if quick else 24):
+        try:
+            r = live_slow_reader(duplex=(k % 2 == 0), slow_first=(k // 2 % 2 == 0), n_events=60 + 10 * (k % 3))
+        except Exception as e:   # noqa
+            notes.append('live slow-reader run could not run: %r' % e)
+            break
+        slow_runs.append(r['summary'])
+        if r.get('failure'):
+            failures.append(dict(case=dict(kind='live-slow-reader', mode='steps', nchan=2, caps={1: 25},
+                                           ops=[['sub', 0, 0], ['sub', 1, 1]] + [['pub', e, 6] for e in range(40)]),
+                                 out=r['summary'], what=r['failure']))
+            break
+    res['live_slow_reader'] = slow_runs
+    # the known-finding classifier must attribute nothing but its exact class
+    st = classify_selftest()
+    res['classify_selftest'] = 'ok' if not st else st
+    if st:
+        failures.append(dict(case=dict(kind='classify-selftest', mode='steps', nchan=1, ops=[]), out=None,
+                             what='classify() self-test: ' + st))
     # live: a subscriber process that dies before the dispatcher dequeues its SUBSCRIBE (real multiprocessing.Queue)
     try:
         lf = live_dead_subscriber()
@@ -713,6 +813,141 @@ def extra_checks(rng, tier):
             notes.append('live EventManager run could not run: %r' % e)
     res['failures'] = failures
     res['notes'] = notes
+    return res
+
+
+def classify_selftest():
+    """classify() must return the finding id for the exact class only.  Synthetic (case, output) pairs: the genuine
+    witness; the same with a delivery lost / duplicated / a foreign table entry / another stop position / steps mode /
+    a non-OSError fault in the history; and failures of histories without a queue failure."""
+    base = dict(kind='selftest', mode='run', nchan=2,
+                ops=[['sub', 0, 0], ['sub', 1, 1], ['pub', 1, 6], ['qerr'], ['pub', 2, 6]])
+    out = run_run(base)
+    f = oracle(base, out)
+    if not f:
+        return None if has_qerr_survivor(base, out) else 'the witness of the finding no longer fails and the finding is still registered'
+    if classify(base, out, f) != FINDING_Q:
+        return 'the genuine witness is not recognised'
+    def tamper(fn):
+        o = copy.deepcopy(out); fn(o); return o
+    bad = {
+        'lost delivery': tamper(lambda o: o['chans'][1]['rcvd'].pop(1)),
+        'duplicated delivery': tamper(lambda o: o['chans'][0]['rcvd'].insert(1, ['E', 1])),
+        'subscriber dropped': tamper(lambda o: o['subs'].pop()),
+        'extra close': tamper(lambda o: o['chans'][0].__setitem__('closes', 1)),
+        'stopped elsewhere': tamper(lambda o: o.__setitem__('consumed', 3)),
+        'run raised': tamper(lambda o: o.__setitem__('raised', 3)),
+    }
+    for name, o in bad.items():
+        if classify(base, o, 'x') is not None:
+            return 'a run with the queue failure AND %s is attributed to the known finding' % name
+    if classify(dict(base, mode='steps'), out, 'x') is not None:
+        return 'a steps-mode case is attributed to the known finding'
+    other = dict(base, ops=[['sub', 0, 0], ['break', 0, 'other', 0]] + base['ops'][1:])
+    if classify(other, run_run(other), 'x') is not None:
+        return 'a history with a non-OSError fault is attributed to the known finding'
+    plain = dict(base, ops=[o for o in base['ops'] if o[0] != 'qerr'])
+    if classify(plain, tamper(lambda o: o['chans'][1]['rcvd'].pop()), 'x') is not None:
+        return 'a history without queue failure is attributed to the known finding'
+    return None
+
+
+def has_qerr_survivor(case, out):
+    return out.get('consumed') == len(case['ops'])
+
+
+def live_slow_reader(duplex=True, slow_first=True, n_events=40, blob=8192):
+    """Real multiprocessing.Pipe() channels, real dispatcher.  Subscriber FAST reads continuously; subscriber SLOW is
+    alive but reads nothing until the kernel buffer of its channel is full (or everything has been published),
+    then reads everything.  Its channel never breaks, so it is owed the ack, every event once and in order and the
+    unsubscription ack; FAST likewise.  (With a blocking channel the dispatcher's send just waits for SLOW.)"""
+    import time
+    from proxy.core.event.names import eventNames
+    quiet_logs()
+    names = ['slow', 'fast'] if slow_first else ['fast', 'slow']
+    pipes = {n: multiprocessing.Pipe(duplex=duplex) for n in names}      # (recv_end, send_end)
+    got = {n: [] for n in names}
+    errs = {}
+    all_published = threading.Event()
+    t_end = time.time() + 20
+
+    def reader(name, wait_for_full):
+        r, w = pipes[name]
+        try:
+            if wait_for_full:
+                t_wait = time.time() + 5
+                while time.time() < t_wait and not all_published.is_set():
+                    try:
+                        if not select.select([], [w.fileno()], [], 0)[1]:
+                            break               # the kernel buffer is full: the dispatcher is (or would be) waiting
+                    except (OSError, ValueError):
+                        break                   # the dispatcher closed its end
+                    time.sleep(0.002)
+            while time.time() < t_end:
+                if not r.poll(0.05):
+                    if all_published.is_set() and not r.poll(0.3):
+                        return
+                    continue
+                m = r.recv()
+                got[name].append(m)
+                if m == {'event_name': eventNames.UNSUBSCRIBED}:
+                    return
+        except Exception as e:   # noqa   EOF, truncated pickle after a partial non-blocking write ...
+            errs[name] = '%s: %s' % (type(e).__name__, e)
+
+    threads = [threading.Thread(target=reader, args=(n, n == 'slow'), daemon=True) for n in names]
+    drv = Driver({}, None)
+    disp = new_dispatcher()
+    outs = []
+    def handle(it):
+        try:
+            disp.handle_event(it); outs.append(0)
+        except Exception as e:   # noqa
+            outs.append(exc_code(e))
+    try:
+        for n in names:
+            drv.eq.subscribe(n, pipes[n][1]); handle(drv.lq.items.pop(0))
+        for t in threads:
+            t.start()
+        for e in range(n_events):
+            drv.eq.publish(request_id='req-%d' % e, event_name=eventNames.WORK_STARTED,
+                           event_payload={'n': e, 'blob': 'x' * blob}, publisher_id='C18')
+            handle(drv.lq.items.pop(0))
+        table_before_unsub = sorted(disp.subscribers)
+        for n in names:
+            drv.eq.unsubscribe(n); handle(drv.lq.items.pop(0))
+        all_published.set()
+        for t in threads:
+            t.join(25)
+    finally:
+        all_published.set()
+        for r, w in pipes.values():
+            for c in (r, w):
+                try: c.close()
+                except OSError: pass
+    def canon(m):
+        if m == {'event_name': eventNames.SUBSCRIBED}: return 'S'
+        if m == {'event_name': eventNames.UNSUBSCRIBED}: return 'U'
+        if isinstance(m, dict) and isinstance(m.get('event_payload'), dict) and m['event_payload'].get('blob') == 'x' * blob:
+            return m['event_payload'].get('n')
+        return 'X'
+    want = ['S'] + list(range(n_events)) + ['U']
+    seq = {n: [canon(m) for m in got[n]] for n in names}
+    summary = dict(duplex=duplex, order=names, events=n_events, bytes_per_event=blob,
+                   received={n: len(seq[n]) for n in names}, reader_errors=errs, outcomes_nonzero=[x for x in outs if x],
+                   table_before_unsubscribe=table_before_unsub)
+    res = dict(summary=summary)
+    for n in names:
+        if seq[n] != want:
+            k = next((i for i, (a, b) in enumerate(zip(seq[n], want)) if a != b), min(len(seq[n]), len(want)))
+            res['failure'] = ('live real Pipe(duplex=%s): subscriber %r (%s) received %d of %d messages, first difference at '
+                              'position %d (got %r, owed %r)%s; its channel never broke'
+                              % (duplex, n, 'alive, reads only once its buffer is full' if n == 'slow' else 'reads continuously',
+                                 len(seq[n]), len(want), k, seq[n][k] if k < len(seq[n]) else None, want[k] if k < len(want) else None,
+                                 '; reader error %s' % errs[n] if n in errs else ''))
+            break
+    if 'failure' not in res and any(outs):
+        res['failure'] = 'live real Pipe: handle_event raised (codes %r)' % [x for x in outs if x]
     return res
 
 
